@@ -45,6 +45,22 @@ Theorem C03_sorter_any_rows_wf : forall H sort_rows arrive columns pk s rows,
 Proof. exact Ingest_proofs.sorter_any_rows_wf. Qed.
 Print Assumptions C03_sorter_any_rows_wf.
 
+(** Number of blocks: an ingested table of n stored rows has exactly ceil(n/255) blocks
+    and as many block indices, for every n (no bound: in particular beyond the decoders'
+    pre-allocation cap of 1024 blocks); with unique keys n is the number of input rows. *)
+Theorem C03_block_count : forall H sort_rows arrive run_size columns pknames rows,
+  sort_ok (length columns) sort_rows -> any_arrival arrive ->
+  incl pknames columns -> NoDup pknames -> wf_rows (length columns) rows -> cells_in_limit rows ->
+  exists T tidx w,
+    ingest_table H sort_rows arrive run_size columns pknames rows = (IOk T tidx, w) /\
+    length (t_blocks T) = Nat.div (Nat.add (length (rows_of T)) 254%nat) 255%nat /\
+    length (t_blockidx T) = length (t_blocks T) /\
+    (NoDup (map (dkey (length columns)
+                      (match key_indices columns pknames with Some pk => pk | None => [] end)) rows) ->
+     length (rows_of T) = length rows).
+Proof. exact Ingest_proofs.ingest_block_count. Qed.
+Print Assumptions C03_block_count.
+
 (** With an injective hash, block i's index maps the hash of every row's key to that
     row's position and hash (BlockIndex.Get), and the hash of any key absent from the
     block to nothing. *)
